@@ -64,6 +64,8 @@ def check(model: Model, run: Run) -> None:
         seen.add(ident)
         fi = model.functions.get(func)
         run.fail(Finding(rule, ident[1], key, msg, f"{model.relpath(fi.module)}:{line}" if fi else ""))
+    from ..tlvcheck import nonconstant_tags
+    nonconstant_tags(ex, run, "B11-writer-tags-are-constants")
 
 
 def walk(w):
